@@ -154,8 +154,11 @@ class BuildDirs:
                 # Another thread might have reserved a directory that we
                 # created, after seeing it in the real file system but before
                 # we got here. We must still record that the current build
-                # created the directory.
-                if parent in created_dirs_set:
+                # created the directory. Likewise, we might have seen a
+                # directory in the real file system that another thread
+                # created and then virtually removed due to an exception.
+                if (parent in created_dirs_set or
+                        norm_cased_parent in self._error_created_dirs):
                     if norm_cased_parent not in self._created_dirs_map:
                         self._created_dirs_map[norm_cased_parent] = parent
                         self._error_created_dirs.discard(norm_cased_parent)
